@@ -490,7 +490,7 @@ def oracle_says(m, grids, rd, budget_s=8.0):
 # enforced = (model, acceptance set) pairs on which the reference converter claims to mirror the real one (shortcut=0, inside its
 # fragment predicate) or refuses.  Floor on enforced/pairs: what the unchanged tree gives (see design notes, round 6) minus a margin;
 # flagging more inputs as shortcut on the Lean side, or a generator drifting out of the fragment, falls below it.
-ENFORCED_FLOOR = 0.45
+ENFORCED_FLOOR = 0.43
 # (was pending on the Lean side until 032a60f: resBnd of min/max with an infinite bound) switch kept for bisecting: when False the
 # native half of the refusal family is compared and counted like a flagged pair
 REFUSAL_FAMILY_NATIVE_ENFORCED = True
